@@ -1,5 +1,6 @@
 import Qryn.Proofs.Faults
 import Qryn.Proofs.PreRequest
+import Qryn.Ingest.PreChains
 /-! # C05 — no request body can crash or wedge the ingest side
 
 Property theorems only. Model: `Qryn.Ingest.Faults` — `ingest : Route → Doc → Outcome` over the decoded
@@ -569,5 +570,67 @@ example : (unsnappyWith idLib [.decodedLen, .limitDeclared 2, .decode] [1, 2, 3]
 example : (unsnappyWith idLib [.decodedLen, .limitDeclared 2, .decode] [1, 2, 3]).alloc = 0 := by decide
 
 end PreRequest
+
+/-! ## The request context of the handlers: no failed type assertion in the handler goroutine
+
+Model: `Qryn.Ingest.PreChains`; facts: `Gen.PreChains` (which keys each middleware asserts / stores, what `doParse`
+reads, `cfg.ExtraMiddleware`, the option list of every handler constructor). -/
+
+section PreChains
+open Qryn.PreChains
+open Qryn.Gen.PreChains (middlewares handlers extraMiddlewareDefault extraMiddlewareTempo)
+
+/-- T: the hand-placed context operations of every named middleware agree with the source: the same bare
+    assertions (key and type, in order) and the same stored keys -/
+theorem middleware_ctx_facts_tied :
+    middlewares.all (fun m =>
+      match opsOfMiddleware m.1 with
+      | none => false
+      | some ops =>
+        decide (ops.filterMap Op.asserted = m.2.1.map (fun a => (a.1, tyOf a.2))) &&
+          decide (ops.filterMap Op.stored = m.2.2.eraseDups)) = true := by decide
+
+/-- T: every chain of every handler constructor passes the static check -/
+theorem handler_chains_checked : allHandlersSafe = true := by decide
+
+/-- **handler_chains_no_fault.** For every ingest handler as it is built in the source, both values of
+    `cfg.ExtraMiddleware`, every parser the Content-Type can select and every combination of steps that return an
+    error: no bare type assertion on a context value fails — `dsn.(string)` finds the string stored by
+    `WithOverallContextMiddleware`, `Value("node").(string)` the node name stored by the service middleware of
+    the route. The handler goroutine therefore ends in a status (`ErrorHandler`) or reaches the parser; it does
+    not panic on the way, whatever the request. -/
+theorem handler_chains_no_fault :
+    ∀ h ∈ handlers, ∀ extra ∈ [extraMiddlewareDefault, extraMiddlewareTempo], ∀ p ∈ h.2.2,
+      ∃ ops, chainOps extra h.2.1 p = some ops ∧ ∀ fails, exec ops fails [] ≠ .fault := by
+  intro h hh extra he p hp
+  have hall := handler_chains_checked
+  unfold allHandlersSafe at hall
+  have h1 := (List.all_eq_true.mp hall) h hh
+  have h2 := (List.all_eq_true.mp h1) extra he
+  simp only [Bool.and_eq_true] at h2
+  have h3 := (List.all_eq_true.mp h2.2) p hp
+  cases hc : chainOps extra h.2.1 p with
+  | none => simp [hc] at h3
+  | some ops =>
+    refine ⟨ops, rfl, ?_⟩
+    simp only [hc] at h3
+    exact safe_sound ops [] h3
+
+/-- what the order is for: the service middleware without `WithOverallContextMiddleware` before it panics on
+    `dsn.(string)`; a chain without a service middleware panics in `doParse` on `Value("node").(string)` -/
+theorem chain_without_overall_faults :
+    ∃ ops, chainOps [] [("cfg.ExtraMiddleware", []), ("withTSAndSampleService", [])] ("*", []) = some ops ∧
+      exec ops [] [] = .fault := ⟨_, rfl, by decide⟩
+
+theorem chain_without_service_faults :
+    ∃ ops, chainOps extraMiddlewareDefault [("cfg.ExtraMiddleware", [])] ("*", []) = some ops ∧
+      exec ops [] [] = .fault := ⟨_, rfl, by decide⟩
+
+/-- non-vacuity: the chains are not empty, and a chain can end in a rejection as well as reach the parser -/
+example : handlers.length = 12 := by decide
+example : ∃ ops, chainOps extraMiddlewareDefault [("cfg.ExtraMiddleware", []), ("withTSAndSampleService", [])] ("*", []) = some ops ∧
+    exec ops [true] [] = .rejected ∧ (∃ c, exec ops [] [] = .completed c) := ⟨_, rfl, by decide, ⟨_, rfl⟩⟩
+
+end PreChains
 
 end Qryn.C05
